@@ -50,6 +50,7 @@ import Aldrin.Lemmas.Broker.CallAsserts
 import Aldrin.Lemmas.Broker.Lookups
 import Aldrin.Lemmas.Broker.Terminate
 import Aldrin.Lemmas.Broker.NoPanic
+import Aldrin.Lemmas.ConnId.Inv
 
 namespace Aldrin.Broker
 
@@ -220,6 +221,32 @@ theorem work_loop_terminates (s : St) : ∃ s1, Steps s s1 ∧ (processOne s1 = 
 theorem work_loop_outcome_is_independent_of_the_budget (s : St) : ∃ n r, (∀ fuel, n ≤ fuel → processLoop fuel s = r) ∧
     (r = .error .fuel → ∃ s1, Steps s s1 ∧ processOne s1 = some (.error .fuel)) :=
   processLoop_stable s
+
+/-! ### the allocator of connection ids (`broker/src/conn_id.rs`)
+
+`turn_panics_only_in_introspection` leaves "the id of a new connection was already in use" as one way for a turn to
+fail. The ids come from `ConnectionIdManager`; model `Model/ConnId.lean`, invariant `Lemmas/ConnId/Inv.lean`. -/
+
+/-- **No connection id is handed out twice.** After every history of acquiring ids and of dropping ids that are in
+use — any number of them, in any order —, neither `debug_assert!` of `Inner::release` has failed, the ids in use are
+pairwise different, and the id that the next `acquire` returns is not in use. -/
+theorem connection_ids_are_never_handed_out_twice (ops : List ConnId.Op) :
+    ∃ s, ConnId.Sys.run {} ops = .ok s ∧ s.held.Nodup ∧ s.ids.acquire.1 ∉ s.held := by
+  obtain ⟨s, hr, hi⟩ := ConnId.run_ok ConnId.Inv.init ops
+  exact ⟨s, hr, hi.heldNd, ConnId.acquire_fresh hi⟩
+
+/-- what the allocator keeps track of, in every state it can reach: the ids below `next` are exactly the ids in use
+and the ids on the free list, and none is both -/
+theorem connection_id_bookkeeping (ops : List ConnId.Op) :
+    ∃ s, ConnId.Sys.run {} ops = .ok s ∧ s.ids.free.Nodup ∧ (∀ i, i ∈ s.held → i ∉ s.ids.free) ∧
+      ∀ i, i < s.ids.next ↔ (i ∈ s.held ∨ i ∈ s.ids.free) := by
+  obtain ⟨s, hr, hi⟩ := ConnId.run_ok ConnId.Inv.init ops
+  exact ⟨s, hr, hi.freeNd, hi.disj, hi.cover⟩
+
+/-! non-vacuity: ids 0 1 2 acquired, 1 then 2 dropped (the second lowers `next`), two more acquired: 1 from the free
+list, then 2 again -/
+example : (match ConnId.Sys.run {} [.acquire, .acquire, .acquire, .release 1, .release 2, .acquire, .acquire] with
+    | .ok s => (s.ids.next, s.ids.free, s.held) | .error _ => (0, [], [])) = (3, [], [2, 1, 0]) := by decide
 
 /-! non-vacuity: abuse by connection 1 (wrong direction, then it is gone); connection 0 is still served -/
 example : (match run {} {} [.newConn 0 20, .newConn 1 14, .msg 1 (.other 31), .msg 1 (.sync 5), .msg 0 (.sync 6)] with
